@@ -470,6 +470,11 @@ func c06Any(r *rng) {
 		check("[]string", strs, proto.TypeSliceString, strs)
 		check("pointer to uint16", &u16, proto.TypeSliceUint16, u16)
 	}
+	for _, b := range []typedef.Bool{typedef.BoolFalse, typedef.BoolTrue, typedef.BoolInvalid} {
+		check("typedef.Bool", b, proto.TypeBool, b)
+	}
+	check("[]typedef.Bool", []typedef.Bool{1, 0, 255}, proto.TypeSliceBool, []typedef.Bool{1, 0, 255})
+	check("bool false", false, proto.TypeBool, typedef.BoolFalse)
 	check("bool true", true, proto.TypeBool, typedef.BoolTrue)
 	check("named bool", myBool(true), proto.TypeBool, typedef.BoolTrue)
 	check("[]bool", []bool{true, false}, proto.TypeSliceBool, []typedef.Bool{1, 0})
